@@ -12,7 +12,10 @@ Proved here, for ALL file sets, workspace roots, requiring files and module stri
  * `matchPre_eq_spec`, `matchInit_eq_spec`, `resolve_empty_iff_spec`: for workspaces without dotted
    file names in which the directories ABOVE the workspace root do not complete a match, the model's
    candidate tests are the documented mapping (name.lua under the module's directories, else
-   name/init.lua), so the type-6 diagnostic appears exactly when the documented mapping finds nothing.
+   name/init.lua), so the type-6 diagnostic appears exactly when the documented mapping finds nothing;
+ * `pickMin_le`, `pickMin_order_independent`, `choose_mem_best`, `choose_none_iff`, `tie_resolved`: among
+   equally ranked candidates the one with the smallest path is loaded (fix 79a7ee2), whatever order the
+   candidates are visited in — the analysis and go-to-definition on the string agree, run after run.
 -/
 import LuaHelper.Model.Mod
 import LuaHelper.Gen.Shapes
@@ -255,9 +258,104 @@ theorem K1_witness :
     specCandidates [⟨[], "mod", ".test.lua"⟩] ["mod"] = [] := by decide
 #print axioms K1_witness
 
-/-- class K2 (tie): a/mod.lua and b/mod.lua have the same score seen from main.lua -/
-theorem K2_witness :
+/-- a tie in score: a/mod.lua and b/mod.lua are equally ranked seen from main.lua … -/
+theorem tie_witness :
     (resolveRequire [⟨["a"], "mod", ".lua"⟩, ⟨["b"], "mod", ".lua"⟩] ["ws"] ["main.lua"] ["mod"]).length = 2 := by decide
-#print axioms K2_witness
+#print axioms tie_witness
+
+/-! ### equal scores are ordered by path (fix 79a7ee2): one winner, the same for every caller and every order -/
+
+theorem pickMin_mem : ∀ (l : List File) (f : File), pickMin l = some f → f ∈ l
+  | [], f, h => by simp [pickMin] at h
+  | x :: r, f, h => by
+    unfold pickMin at h
+    cases hr : pickMin r with
+    | none => simp [hr] at h; simp [h]
+    | some g =>
+      simp only [hr, Option.some.injEq] at h
+      have hg := pickMin_mem r g hr
+      unfold minPath at h
+      split at h
+      · subst h; simp [hg]
+      · subst h; simp
+
+theorem pickMin_none : ∀ (l : List File), pickMin l = none ↔ l = []
+  | [] => by simp [pickMin]
+  | x :: r => by
+    unfold pickMin
+    cases pickMin r <;> simp
+
+/-- the chosen file has the smallest path among the candidates -/
+theorem pickMin_le : ∀ (l : List File) (f : File), pickMin l = some f → ∀ x ∈ l, f.rel ≤ x.rel
+  | [], f, h => by simp [pickMin] at h
+  | y :: r, f, h => by
+    intro x hx
+    unfold pickMin at h
+    cases hr : pickMin r with
+    | none =>
+      simp [hr] at h
+      have : r = [] := (pickMin_none r).mp hr
+      subst this; subst h
+      simp at hx; subst hx; exact String.le_refl _
+    | some g =>
+      simp only [hr, Option.some.injEq] at h
+      have ih := pickMin_le r g hr
+      unfold minPath at h
+      rcases List.mem_cons.mp hx with rfl | hx
+      · split at h
+        · rename_i hlt; subst h; exact String.not_lt.mp (String.lt_asymm hlt)
+        · subst h; exact String.le_refl _
+      · split at h
+        · subst h; exact ih x hx
+        · rename_i hnl; subst h
+          exact String.le_trans (String.not_lt.mp hnl) (ih x hx)
+
+/-- the winner does not depend on the order in which the candidates are visited (they come out of a Go map):
+    two lists with the same members and pairwise different paths have the same winner -/
+theorem pickMin_order_independent (l1 l2 : List File) (hsame : ∀ f, f ∈ l1 ↔ f ∈ l2)
+    (hinj : ∀ f ∈ l1, ∀ g ∈ l1, f.rel = g.rel → f = g) : pickMin l1 = pickMin l2 := by
+  cases h1 : pickMin l1 with
+  | none =>
+    have e1 : l1 = [] := (pickMin_none l1).mp h1
+    have e2 : l2 = [] := by
+      cases l2 with
+      | nil => rfl
+      | cons x r => have := (hsame x).mpr (by simp); subst e1; simp at this
+    subst e2; simp [pickMin]
+  | some f =>
+    cases h2 : pickMin l2 with
+    | none =>
+      have e2 : l2 = [] := (pickMin_none l2).mp h2
+      have := (hsame f).mp (pickMin_mem l1 f h1)
+      subst e2; simp at this
+    | some g =>
+      have hf1 := pickMin_mem l1 f h1
+      have hg2 := pickMin_mem l2 g h2
+      have hg1 := (hsame g).mpr hg2
+      have hf2 := (hsame f).mp hf1
+      have a := pickMin_le l1 f h1 g hg1
+      have b := pickMin_le l2 g h2 f hf2
+      exact congrArg some (hinj f hf1 g hg1 (String.le_antisymm a b))
+#print axioms pickMin_order_independent
+
+/-- the chosen file is one of the best-scored candidates, and there is one iff there is a candidate -/
+theorem choose_mem_best (root cur rs : List String) (cands : List File) (f : File)
+    (h : choose root cur rs cands = some f) : f ∈ best root cur rs cands ∧ f ∈ cands := by
+  have := pickMin_mem _ f h
+  exact ⟨this, best_subset root cur rs cands f this⟩
+#print axioms choose_mem_best
+
+theorem choose_none_iff (root cur rs : List String) (cands : List File) :
+    choose root cur rs cands = none ↔ cands = [] := by
+  unfold choose
+  rw [pickMin_none, best_empty_iff]
+#print axioms choose_none_iff
+
+/-- in the tie above the analysis and go-to-definition on the string now load the same file, a/mod.lua -/
+theorem tie_resolved :
+    loadRequire [⟨["b"], "mod", ".lua"⟩, ⟨["a"], "mod", ".lua"⟩] ["ws"] ["main.lua"] ["mod"] = some ⟨["a"], "mod", ".lua"⟩ ∧
+    loadDefine [⟨["b"], "mod", ".lua"⟩, ⟨["a"], "mod", ".lua"⟩] ["ws"] ["main.lua"] ["mod"] = some ⟨["a"], "mod", ".lua"⟩ := by
+  decide
+#print axioms tie_resolved
 
 end LuaHelper.C18
